@@ -1046,6 +1046,9 @@ func permutations(n int) [][]int {
 }
 
 func genC03(cw *caseWriter, seed uint64, tier string) {
+	// a slice of the template / row histories (refused imports included) under this property's name: declared columns keep
+	// their declarations (harness/alias.go)
+	genAliasHistories(cw, "C03", newRng(seed+1842), 60)
 	r := newRng(seed)
 	// every permutation of the declared keys (<= 4 keys; thorough: 5) for fixed templates
 	maxk := 4
@@ -1184,6 +1187,9 @@ func genC03(cw *caseWriter, seed uint64, tier string) {
 }
 
 func genC04(cw *caseWriter, seed uint64, tier string) {
+	// a slice of the template / row histories (refused imports included) under this property's name: declared columns keep
+	// their declarations (harness/alias.go)
+	genAliasHistories(cw, "C04", newRng(seed+1103), 60)
 	r := newRng(seed)
 	// 9 formats x (18 raw types + none) as input and as output descriptor x every scalar text
 	reps := 1
